@@ -110,13 +110,10 @@ func ruleUpdate(c *Ctx) {
 		// pushed into the new list authenticates again.)
 		nOps := 0
 		for _, g := range p.FnsIn("service") {
-			if g == f || g.Signature.Recv() == nil && g.Parent() == nil || p.IsTestSupport(g) {
+			if g == f || p.IsTestSupport(g) || eng.Root(g) == f {
 				continue
 			}
-			r := eng.Root(g)
-			if r.Signature.Recv() == nil || eng.TypeName(r.Signature.Recv().Type()) != T || r == f {
-				continue
-			}
+			// methods of the list type and the plain functions they hand the guarded list to (the list then arrives as a parameter)
 			for _, cl := range eng.Calls(g) {
 				call, ok := cl.(*ssa.Call)
 				if !ok {
@@ -126,7 +123,7 @@ func ruleUpdate(c *Ctx) {
 				if cf == nil || cf.Pkg == nil || cf.Pkg.Pkg.Path() != "container/list" || len(call.Call.Args) == 0 {
 					continue
 				}
-				if !p.AnyFrom(call.Call.Args[0], eng.Plain, func(v ssa.Value) bool { t, _, _, ok := eng.FieldLoad(v); return ok && t == T }) {
+				if !p.AnyFrom(call.Call.Args[0], eng.Deep, func(v ssa.Value) bool { t, _, _, ok := eng.FieldLoad(v); return ok && t == T }) {
 					continue
 				}
 				nOps++
